@@ -92,6 +92,47 @@ def check_effects(rep, model):
                            f"stores a copy ({v.func.id}(...))")
 
 
+def check_behaviour(rep, actions):
+    """'evaluates like a freshly built copy': a query on a pooled expression or a kept derivative object
+    after an operation that may have rewired it (as_expression on the very object, simplification of its
+    expression) against the same query on a fresh pool."""
+    from .c09 import same_answer
+    queries = [a for a in actions if a[2] is not None and a[0] in ("at", "partial", "partial-early", "differential-early")]
+    runs = []
+    for a in queries:
+        ops = [("normalize", a[1], None, None), ("as_expression-reverse", a[1], None, "y")]
+        if a[0] == "partial":
+            ops.append(("as_expression", a[1], None, a[3]))
+        else:
+            ops.append(("as_expression", a[1], None, "x"))
+        for op in ops:
+            runs.append(([op], a))
+    fresh = dict(zip(queries, pmap(run_history, [([], a) for a in queries], chunksize=8)))
+    results = pmap(run_history, runs, chunksize=8)
+    per = {}
+    for (h, a), r in zip(runs, results):
+        d = per.setdefault(a[0], [0, 0])
+        d[0] += 1
+        b = fresh[a]
+        if r["status"] != "ok" or b["status"] != "ok":
+            rep.unknown("C10.behaviour", a[0], "", (r.get("reason") or b.get("reason") or "")[:200])
+            continue
+        if same_answer(r["result"], b["result"]):
+            d[1] += 1
+            continue
+        q = f"{a[0]}({a[1]}, {a[2]}{', ' + a[3] if a[3] else ''})"
+        rep.violation("C10.behaviour", f"{a[0]} after {h[0][0]}", "",
+                      f"after {h[0][0]}({h[0][1]}{', ' + h[0][3] if h[0][3] else ''}) the existing object answers {q} with "
+                      f"{r['result']} but a freshly built copy answers {b['result']}",
+                      witness={"history": h, "final": a, "got": r["result"], "fresh": b["result"]},
+                      witness_class=f"{r['result'][0]} vs {b['result'][0]}")
+    for k, (n, good) in sorted(per.items()):
+        if n == good:
+            rep.ok("C10.behaviour", f"query {k}", "", f"{n} (operation, query) pairs on pooled expressions and kept "
+                   f"derivative objects, incl. the absent variable and points outside the domain: same answer as a "
+                   f"freshly built copy (numbers up to rounding)", cases=n)
+
+
 def check(rep):
     model = load_model()
     actions = all_actions()
@@ -126,10 +167,12 @@ def check(rep):
             rep.ok("C10.snapshot", f"operation {k}", "", f"{n} histories: every pooled expression, point, derivative "
                    f"object and every expression returned earlier reads back unchanged (structure, variable set, "
                    f"coordinates and their order)", cases=n)
+    check_behaviour(rep, actions)
     check_effects(rep, model)
     rep.extra["histories"] = len(runs)
     rep.sample({"history": runs[-1][0], "final": runs[-1][1]})
     rep.require_floor("C10.snapshot", 8, "kinds of operation")
+    rep.require_floor("C10.behaviour", 4, "kinds of query")
     rep.require_floor("C10.field-writes", 20, "structural field stores")
     rep.require_floor("C10.no-borrowed-mutation", 8, "in-place mutation sites")
     rep.assume("sound for the Python subset the package uses (setattr/delattr are flagged; no exec/__dict__ tricks)",
